@@ -559,6 +559,59 @@ def r8_alias_names(ctx):
     _r(proxy(ctx, 'R8'))
 
 
+def r9_declared_band(ctx):
+    """R9: the band a library entry DECLARES (f_min / f_max written in the equipment entry) is the band the selection filters on, for
+    every kind of amplifier: in Amp.from_json, where the configuration file is merged over the entry (`{**kwargs, **config}`), the
+    file's f_min / f_max are removed whenever the entry carries its own - under no condition on anything else (type_def, variety)"""
+    from .common import holds_at
+    repo = ctx.repo
+    amp = repo.module('gnpy.tools.json_io').classes.get('Amp')
+    if amp is None:
+        raise AnchorMissing('json_io.Amp')
+    fj = repo.method(amp, 'from_json')
+    kw = fj.node.args.kwarg.arg if fj.node.args.kwarg else None
+    if kw is None:
+        raise AnchorMissing('Amp.from_json(**kwargs)')
+    merges = [d for d in ast.walk(fj.node) if isinstance(d, ast.Dict) and sum(k is None for k in d.keys) >= 2 and
+              any(k is None and isinstance(v, ast.Name) and v.id == kw for k, v in zip(d.keys, d.values))]
+    if len(merges) != 1:
+        raise CannotAnalyse('Amp.from_json: expected one merge of the entry with its configuration file')
+    stars = [v.id for k, v in zip(merges[0].keys, merges[0].values) if k is None and isinstance(v, ast.Name)]
+    cfgs = [n for n in stars if n != kw]
+    if len(cfgs) != 1:
+        raise CannotAnalyse(f'Amp.from_json: merge of {stars}')
+    cfg = cfgs[0]
+    if stars.index(cfg) < stars.index(kw):
+        # the entry is merged last: its own f_min / f_max win without any removal
+        ctx.check('R9.declared-band', f'{site(fj, merges[0])} entry merged over the file', True, key(fj, 'merge-order'), '')
+        ctx.check('R9.declared-band', f'{site(fj, merges[0])} (nothing to remove)', True, key(fj, 'merge-order2'), '')
+        ctx.need('R9.declared-band', 2)
+        return
+    for fld in ('f_min', 'f_max'):
+        rem = []
+        for n in walk_no_nested(fj.node):
+            if isinstance(n, ast.Expr) and isinstance(n.value, ast.Call) and isinstance(n.value.func, ast.Attribute) and n.value.func.attr == 'pop' \
+                    and ast.unparse(n.value.func.value) == cfg and n.value.args and isinstance(n.value.args[0], ast.Constant) and n.value.args[0].value == fld:
+                rem.append(n)
+            if isinstance(n, ast.Delete) and any(ast.unparse(t) == f"{cfg}['{fld}']" for t in n.targets):
+                rem.append(n)
+        if not rem:
+            raise CannotAnalyse(f'Amp.from_json: the file is merged over the entry but its {fld} is never removed by pop / del')
+        for r in rem:
+            conds = holds_at(r)
+            foreign = []
+            for c in conds:
+                names = {x.id for x in ast.walk(ast.parse(c, mode='eval')) if isinstance(x, ast.Name)}
+                if not names <= {kw, cfg}:
+                    foreign.append(c)
+            own = [c for c in conds if kw in c and ('f_min' in c or 'f_max' in c)]
+            ctx.check('R9.declared-band', f'{site(fj, r)} {fld}', not foreign and bool(own), key(fj, f'declared|{fld}'),
+                      f"the file's {fld} gives way to the entry's only when {foreign or conds}: for the other amplifiers the band declared in "
+                      'the library entry is silently replaced by the one of the configuration file, so an amplifier that does not cover '
+                      'the design band passes the band filter (and can win as the quietest)')
+    ctx.need('R9.declared-band', 2)
+
+
 from ..memo import rule_for as _memo_rule
 
 RULES_MEMO = ('Rm.memo', _memo_rule('C10', 'a model would be ranked or judged with the figures of another library or gain'))
@@ -569,4 +622,4 @@ from ..presence import rule_for as _presence_rule
 RULES_PRESENCE = ('Rp.presence', _presence_rule('C10', 'a legal zero would be read as missing'))
 
 RULES = [('R1.precedence', r1_precedence), ('R2.band-cover', r2_band_cover), ('R3.selection', r3_selection),
-         ('R4.raman-gate', r4_raman_gate), ('R5.capability', r5_capability), RULES_MEMO, RULES_PRESENCE, ('Rv.verbose-pure', rv_verbose), ('Rn.arg-roles', rn_arg_roles), ('Rk.field-key', rk_field_key), ('R6.neighbours', r6_neighbours), ('R7.multiband-narrowing', r7_multiband_narrowing), ('R8.alias-names', r8_alias_names)]
+         ('R4.raman-gate', r4_raman_gate), ('R5.capability', r5_capability), RULES_MEMO, RULES_PRESENCE, ('Rv.verbose-pure', rv_verbose), ('Rn.arg-roles', rn_arg_roles), ('Rk.field-key', rk_field_key), ('R6.neighbours', r6_neighbours), ('R7.multiband-narrowing', r7_multiband_narrowing), ('R8.alias-names', r8_alias_names), ('R9.declared-band', r9_declared_band)]
